@@ -5,8 +5,10 @@
 
 mod common;
 mod refmetric;
+mod gen;
 
 mod c08;
+mod c12;
 mod c13;
 mod c16;
 mod c18;
@@ -15,7 +17,7 @@ use common::{Check, Opts, Tier};
 use std::path::PathBuf;
 
 fn registry() -> Vec<Box<dyn Check>> {
-    vec![Box::new(c08::C08), Box::new(c13::C13), Box::new(c16::C16), Box::new(c18::C18)]
+    vec![Box::new(c08::C08), Box::new(c12::C12), Box::new(c13::C13), Box::new(c16::C16), Box::new(c18::C18)]
 }
 
 thread_local! {
@@ -79,6 +81,7 @@ fn main() {
                 let spec = next();
                 let code = match o.id.to_ascii_uppercase().as_str() {
                     "C18" => c18::aux_main(&spec),
+                    "C12" => c12::aux_main(&spec),
                     _ => 2,
                 };
                 std::process::exit(code);
